@@ -297,9 +297,11 @@ impl Stage {
         Ok(id)
     }
 
+    /// println / clear / suspend / remove happened: the guarantee that a visibly finished bar
+    /// keeps its final rendering after being dropped ends for every bar finished so far
     fn mark_vanishable(&mut self) {
         for s in self.bars.iter_mut() {
-            if s.abs.dropped && !s.abs.removed {
+            if (s.abs.dropped || s.abs.status == Status::DoneVisible) && !s.abs.removed {
                 s.abs.vanishable = true;
             }
         }
@@ -694,11 +696,16 @@ impl Stage {
                     abs.pos = 0;
                     abs.status = Status::InProgress;
                 }
-                "finish" => abs.apply_finish(a, &text),
+                "finish" => {
+                    abs.apply_finish(a, &text);
+                    abs.vanishable = false;
+                }
                 "finish_using_style" => {
                     let (c, m) = (abs.on_finish, abs.on_finish_msg.clone());
                     abs.apply_finish(c, &m);
+                    abs.vanishable = false;
                 }
+                "reset" if false => {}
                 "iter_exhaust" => {
                     abs.pos = abs.pos.wrapping_add(a);
                     if !abs.finished() {
@@ -1028,6 +1035,18 @@ impl Stage {
             region_alts.push(std::mem::take(&mut region));
         }
         let static_rows: usize = statics.iter().map(|(_, rows, _, _)| rows.len()).sum();
+        {
+            // rows that have scrolled into the scrollback cannot be erased any more: if more rows
+            // scrolled out than there are log rows, static lines may have (also by a taller frame
+            // painted in the middle of this call)
+            let log_rows: usize = logs.iter().map(|l| l.len()).sum();
+            let top = self.term.lock().grid.top;
+            if static_rows > 0 && top > log_rows {
+                self.out_of_scope = Some(format!("{at}: static lines may have scrolled out of the terminal's reach"));
+                r.inconclusive = true;
+                return;
+            }
+        }
         if static_rows > 0 && static_rows + region_rows.min(self.h) > self.h {
             // static lines of finished bars may have scrolled out of the terminal's reach
             self.out_of_scope = Some(format!("{at}: static lines + region exceed the terminal height"));
